@@ -552,7 +552,13 @@ class Bits:
         with open(pathlib.Path(filename), 'rb') as source:
             if offset is None:
                 offset = 0
-            m = mmap.mmap(source.fileno(), 0, access=mmap.ACCESS_READ)
+            try:
+                m = mmap.mmap(source.fileno(), 0, access=mmap.ACCESS_READ)
+            except ValueError:
+                # An empty file can't be memory mapped, so check if that's the problem.
+                if _os.fstat(source.fileno()).st_size != 0:
+                    raise
+                m = b''
             if offset == 0:
                 self._filename = source.name
                 self._bitstore = BitStore.frombuffer(m, length=length)
